@@ -28,6 +28,8 @@ type scriptConn struct {
 	scripted bool     // the whole client side is scripted up front (kind net)
 	later    [][]byte // scripted: chunks that arrive after a pause each (one timed-out Read per pause)
 	fin      string   // scripted: how the connection ends once drained: eof | idle | err
+	errReads int      // failed Reads handed out at the end of the script / after failRead
+	spun     bool     // the server kept reading after repeated read errors: it was stopped with EOF
 }
 
 func newScriptConn() *scriptConn {
@@ -59,10 +61,16 @@ func (c *scriptConn) Read(p []byte) (int, error) {
 			c.in, c.later = c.later[0], c.later[1:]
 			return 0, timeoutErr{}
 		}
-		switch c.fin {
-		case "idle":
-			return 0, timeoutErr{}
-		case "err":
+		if c.fin == "idle" || c.fin == "err" {
+			// a server that ignores read errors would spin here: stop it after a few rounds
+			c.errReads++
+			if c.errReads > 3 {
+				c.spun = true
+				return 0, io.EOF
+			}
+			if c.fin == "idle" {
+				return 0, timeoutErr{}
+			}
 			return 0, brokenErr{}
 		}
 		return 0, io.EOF
@@ -78,6 +86,11 @@ func (c *scriptConn) Read(p []byte) (int, error) {
 	}
 	if len(c.in) == 0 {
 		if c.readErr != nil {
+			c.errReads++
+			if c.errReads > 3 {
+				c.spun = true
+				return 0, io.EOF
+			}
 			return 0, c.readErr
 		}
 		return 0, io.EOF
@@ -212,6 +225,12 @@ func (c *scriptConn) breakWrites() {
 	c.mu.Lock()
 	c.wfail = true
 	c.mu.Unlock()
+}
+
+func (c *scriptConn) hasSpun() bool {
+	c.mu.Lock()
+	defer c.mu.Unlock()
+	return c.spun
 }
 
 func (c *scriptConn) isClosed() bool {
